@@ -196,6 +196,13 @@ def run_case(case):
                                       f"default-axis round trip fails n={n} nd={nd}")
                         back = np.real(np.fft.ifft(E, axis=ax))
                         res.check(M.relerr(back, x) <= 1e-9, "fexpand:real", f"ifft(fexpand(freduce(fft x))) != x n={n}")
+                        # the same axis named by its negative index
+                        axn = ax - nd
+                        Rn = F.freduce(X, axis=axn)
+                        res.check(Rn.shape == R.shape and np.array_equal(Rn, R), "freduce:negative-axis", f"freduce n={n} nd={nd} axis={axn} differs from axis={ax} (shape {Rn.shape} vs {R.shape})")
+                        En = F.fexpand(R, n, axis=axn)
+                        res.check(En.shape == X.shape and M.relerr(En, X) <= 1e-12, "fexpand:negative-axis", f"fexpand n={n} nd={nd} axis={axn} differs from axis={ax}",
+                                  counter="fexpand_checked")
                     except Exception as e:
                         res.exception("fexpand:exception", e, f"n={n} nd={nd} axis={ax}")
                     nt += 1
